@@ -244,6 +244,11 @@ pub extern "C" fn label_view(a: &Label, out: &mut [u64; 8]) -> u32 {
     }
 }
 
+/// What `std::fs::read` returns for a file whose bytes the executor holds (its stub calls this).
+#[no_mangle]
+pub unsafe extern "C" fn fake_read(out: *mut std::io::Result<Vec<u8>>, p: *mut u8, len: usize, cap: usize) {
+    out.write(Ok(Vec::from_raw_parts(p, len, cap)));
+}
 #[no_mangle]
 pub extern "C" fn string_view(s: &String, p: &mut *const u8) -> usize {
     *p = s.as_ptr();
